@@ -1,4 +1,4 @@
-\* C17 spec-level negative controls: small spaces; c17.py sets Mode, switches ONE of the three constants
+\* C17 spec-level negative controls: small spaces; c17.py sets Mode, switches ONE of the six constants
 \* to TRUE, keeps ONE invariant and requires TLC to report it (see CopyrightDoc.tla)
 CONSTANTS
   Mode = "codec"
@@ -15,11 +15,15 @@ CONSTANTS
   NoDotEscape = FALSE
   DecoderStrips = FALSE
   DotAnyIndent = FALSE
+  StaleDump = FALSE
+  LicMemoBySynopsis = FALSE
+  ParseMemoAliased = FALSE
 SPECIFICATION Spec
 INVARIANT CodecNormal
 INVARIANT CodecLaw
 INVARIANT CodecStable
 INVARIANT EncodedSafe
+INVARIANT CodecRepeat
 INVARIANT BuildAccepted
 INVARIANT FilesFirst
 INVARIANT RoundTrip
